@@ -53,7 +53,8 @@ pub fn get() -> FunctionDefinitions {
                                 let str = if size > str.len() {
                                     str
                                 } else {
-                                    str[size - 1..].into()
+                                    let skip = str.chars().count().saturating_sub(size);
+                                    str.chars().skip(skip).collect()
                                 };
                                 Some(str.into())
                             }
